@@ -58,8 +58,7 @@ let () =
          let bsi = int_of_string toks.(1) in
          let bs = n_of_int bsi in
          let n = int_of_string toks.(3) in
-         let limits = List.map n_of_int (take_ints toks 4 n) in
-         let g = limits_oracle limits in
+         let limits = ref (List.map n_of_int (take_ints toks 4 n)) in
          let ps = ref (List.init n (fun _ -> { p_size = N0; p_valid = N0; p_file = [] })) in
          let buf = Buffer.create 256 in
          let stop = ref false in
@@ -72,6 +71,7 @@ let () =
             | 'O' -> ps := parity_reopen !ps; Buffer.add_string buf "o "
             | 'R' ->
               let size = n_of_int (int_of_string arg) in
+              let g = limits_oracle !limits in
               (match chsize g bs (List.map to_h !ps) size, chsize_data g bs !ps size with
                | Ok (_, m), Ok ps' -> ps := ps'; Buffer.add_string buf (Printf.sprintf "r0m%d " (if m then 1 else 0))
                | Err EAbort, _ -> Buffer.add_string buf "r-2 "; stop := true
@@ -88,6 +88,11 @@ let () =
                | Some b -> Buffer.add_string buf ("d" ^ hex_of_bytes b ^ " ")
                | None -> Buffer.add_string buf "d-1 ")
             | 'T' -> ps := parity_truncate !ps; Buffer.add_string buf "t0 "
+            | 'L' ->
+              let c = String.index arg ':' in
+              let sp = int_of_string (String.sub arg 0 c) and l = int_of_string (String.sub arg (c + 1) (String.length arg - c - 1)) in
+              limits := List.mapi (fun i x -> if i = sp then n_of_int l else x) !limits;
+              Buffer.add_string buf "l "
             | _ -> Buffer.add_string buf "badop "; stop := true)
          done;
          Buffer.add_string buf "|";
